@@ -413,9 +413,9 @@ Proof.
   now apply ct_insert_leaves.
 Qed.
 
-Lemma ct_insert_clades s : forall t c, In c (ct_clades (ct_insert s t)) -> c = s \/ In c (ct_clades t).
+Lemma ct_insert_clades s : s <> 0 -> forall t c, In c (ct_clades (ct_insert s t)) -> c = s \/ In c (ct_clades t).
 Proof.
-  induction t as [m ks IH] using ctree_ind'. intros c I. simpl ct_insert in I.
+  intro NZ. induction t as [m ks IH] using ctree_ind'. intros c I. simpl ct_insert in I.
   destruct (existsb (fun k => contains (ct_mask k) s) ks) eqn:Ex.
   - assert (NE : ks <> []) by (destruct ks; discriminate).
     rewrite ct_clades_node in I by (destruct ks; [congruence | discriminate]).
@@ -429,8 +429,9 @@ Proof.
     + right. right. apply in_flat_map. now exists k.
   - destruct (m =? s); [now right|].
     remember (filter (fun k => negb (Z.land (ct_mask k) s =? 0)) ks) as inside eqn:Ei.
-    destruct (fold_left Z.lor (map ct_mask inside) 0 =? s); [|now right].
-    destruct ks as [|k1 kr]; [simpl in Ei; subst inside; simpl in I; destruct I as [I | []]; simpl; tauto|].
+    destruct (fold_left Z.lor (map ct_mask inside) 0 =? s) eqn:Eq; [|now right].
+    destruct ks as [|k1 kr].
+    { exfalso. simpl in Ei. subst inside. change ((0 =? s) = true) in Eq. apply Z.eqb_eq in Eq. congruence. }
     rewrite ct_clades_node in I by (intro X; apply app_eq_nil in X; destruct X; discriminate).
     rewrite ct_clades_node by discriminate.
     destruct I as [I|I]; [right; now left|].
@@ -443,22 +444,9 @@ Proof.
       rewrite Ei in Ik. apply filter_In in Ik. apply in_flat_map. exists k. tauto.
 Qed.
 
-Theorem consensus_tree_clades_sound_l all bits rooted ss c :
-  In c (ct_clades (fsb_tree all bits rooted ss)) ->
-  In c (ct_clades (ct_star all bits)) \/ In c (fsb_prepare all rooted ss).
+Lemma fsb_prepare_nonzero_fwd : forall all rooted ss c, In c (fsb_prepare all rooted ss) -> c <> 0.
 Proof.
-  unfold fsb_tree.
-  assert (G : forall cs t, In c (ct_clades (fold_left ct_add cs t)) -> In c (ct_clades t) \/ In c cs).
-  { induction cs as [|x r IH]; intros t I; simpl in *; [now left|].
-    destruct (IH _ I) as [H|H]; [|right; now right].
-    unfold ct_add in H. destruct (negb (contains (ct_mask t) x)); [now left|].
-    apply ct_insert_clades in H. destruct H as [H|H]; [right; left; now symmetry | now left]. }
-  apply G.
-Qed.
-
-Lemma fsb_prepare_nonzero all rooted ss c : In c (fsb_prepare all rooted ss) -> c <> 0.
-Proof.
-  intro I. apply fsb_prepare_in in I. destruct I as [s [_ [N E]]]. subst c.
+  intros all rooted ss c I. apply fsb_prepare_in in I. destruct I as [s [_ [N E]]]. subst c.
   unfold fsb_nontrivial in N. apply andb_true_iff in N. destruct N as [N1 N2].
   apply negb_true_iff in N1. apply Z.eqb_neq in N1.
   apply negb_true_iff in N2. apply Z.eqb_neq in N2.
@@ -473,6 +461,24 @@ Proof.
   unfold m in *. rewrite Z.land_spec in *.
   destruct (Z.testbit s n), (Z.testbit all n); simpl in *; congruence.
 Qed.
+
+Theorem consensus_tree_clades_sound_l all bits rooted ss c :
+  In c (ct_clades (fsb_tree all bits rooted ss)) ->
+  In c (ct_clades (ct_star all bits)) \/ In c (fsb_prepare all rooted ss).
+Proof.
+  unfold fsb_tree.
+  assert (G : forall cs t, (forall x, In x cs -> x <> 0) ->
+                           In c (ct_clades (fold_left ct_add cs t)) -> In c (ct_clades t) \/ In c cs).
+  { induction cs as [|x r IH]; intros t NZ I; simpl in *; [now left|].
+    destruct (IH _ (fun y Iy => NZ y (or_intror Iy)) I) as [H|H]; [|right; now right].
+    unfold ct_add in H. destruct (negb (contains (ct_mask t) x)); [now left|].
+    apply ct_insert_clades in H; [|apply NZ; now left].
+    destruct H as [H|H]; [right; left; now symmetry | now left]. }
+  apply G. intros x I. eapply fsb_prepare_nonzero_fwd. exact I.
+Qed.
+
+Lemma fsb_prepare_nonzero all rooted ss c : In c (fsb_prepare all rooted ss) -> c <> 0.
+Proof. apply fsb_prepare_nonzero_fwd. Qed.
 
 Theorem consensus_spans_namespace_l all bits rooted ss :
   bits <> [] -> Permutation (ct_leaves (fsb_tree all bits rooted ss)) bits.
